@@ -42,7 +42,9 @@ Definition tcb := nat.
 Definition tmodel := nat.
 
 (* an on_timeout callback: its id, the event it triggers (on the timed-out model: None, or on a fixed
-   model), and whether it raises afterwards *)
+   model), and whether it raises afterwards — ANY failure: the code catches BaseException, so the kind
+   (Exception, another BaseException, asyncio.CancelledError) makes no difference; the cases of the
+   correspondence check carry the kind and the harness raises it *)
 Record ocb : Type := mkOcb { oc_id : tcb; oc_act : option (option tmodel * tevent); oc_raise : bool }.
 
 (* an on_enter / on_exit callback: its id and the event it triggers on its own model *)
